@@ -175,6 +175,87 @@ MUTANTS = [
       "            raise CorruptShareError(server, reader.shnum, \"IV does not match the signed version\")\n"
       "        if self._version == MDMF_VERSION:\n            blockhash = await defer_to_thread(hashutil.block_hash, salt + block)",
       None),
+    # ---- C10.10 segment sequencing
+    M("decode-chain-not-returned", RET,
+      "        d.addCallback(self._set_segment)\n        return d\n",
+      "        d.addCallback(self._set_segment)\n        return None\n", "C10.10"),
+    M("decode-chain-fall-off", RET,
+      "        d.addCallback(self._set_segment)\n        return d\n",
+      "        d.addCallback(self._set_segment)\n", "C10.10"),
+    M("segment-advance-by-two", RET, "        self._current_segment += 1\n\n\n    def _handle_bad_share",
+      "        self._current_segment += 2\n\n\n    def _handle_bad_share", "C10.10"),
+    M("segment-advance-deleted", RET, "        self._current_segment += 1\n\n\n    def _handle_bad_share",
+      "        pass\n\n\n    def _handle_bad_share", "C10.10"),
+    M("segment-advance-only-when-written", RET,
+      "            segment = None\n        self._current_segment += 1\n",
+      "            segment = None\n            self._current_segment += 1\n", "C10.10"),
+    M("segment-write-negated", RET, "        if not self._verify:\n            self._consumer.write(segment)\n",
+      "        if self._verify:\n            self._consumer.write(segment)\n", "C10.10"),
+    M("segment-write-only-nonempty", RET, "        if not self._verify:\n            self._consumer.write(segment)\n        else:\n",
+      "        if not self._verify:\n            if self._current_segment != self._last_segment:\n"
+      "                self._consumer.write(segment)\n        else:\n", "C10.10"),
+    M("restart-from-first-segment-on-bad-share", RET,
+      "        self._bad_shares.add((server, shnum, f))\n        self._status.add_problem(server, f)\n",
+      "        self._bad_shares.add((server, shnum, f))\n        self._status.add_problem(server, f)\n"
+      "        self._current_segment = self._start_segment\n", "C10.10"),
+    M("process-start-segment", RET, "        d = self._process_segment(self._current_segment)\n",
+      "        d = self._process_segment(self._start_segment)\n", "C10.10"),
+    M("seq-benign-plain-assign", RET, "        self._current_segment += 1\n\n\n    def _handle_bad_share",
+      "        self._current_segment = self._current_segment + 1\n\n\n    def _handle_bad_share", None),
+    M("seq-benign-return-chained", RET,
+      "        d.addCallback(self._set_segment)\n        return d\n",
+      "        return d.addCallback(self._set_segment)\n", None),
+    M("seq-benign-rename-and-early-advance", RET,
+      "        if not self._verify:\n            self._consumer.write(segment)\n        else:\n"
+      "            # we don't care about the plaintext if we are doing a verify.\n            segment = None\n"
+      "        self._current_segment += 1\n",
+      "        step = 1\n        self._current_segment += step\n"
+      "        if self._verify:\n            segment = None\n        else:\n            self._consumer.write(segment)\n", None),
+    # ---- C10.11 trimming of the first / last requested segment
+    M("tail-trim-on-every-other-segment", RET, "        if self._current_segment == self._last_segment:\n            # trim off the tail",
+      "        if self._current_segment != self._last_segment:\n            # trim off the tail", "C10.11"),
+    M("head-trim-on-every-other-segment", RET, "        if self._current_segment == self._start_segment:\n            # Trim off the head",
+      "        if self._current_segment != self._start_segment:\n            # Trim off the head", "C10.11"),
+    M("tail-trim-on-boundary-only", RET, "            if wanted != 0:\n", "            if wanted == 0:\n", "C10.11"),
+    M("tail-trim-unconditional", RET,
+      "            if wanted != 0:\n                self.log(\"on the last segment: using first %d bytes\" % wanted)\n"
+      "                segment = segment[:wanted]\n",
+      "            if True:\n                self.log(\"on the last segment: using first %d bytes\" % wanted)\n"
+      "                segment = segment[:wanted]\n", "C10.11"),
+    M("tail-trim-dropped", RET, "                segment = segment[:wanted]\n", "                pass\n", "C10.11"),
+    M("head-trim-dropped", RET, "            segment = segment[skip:]\n", "            pass\n", "C10.11"),
+    M("trim-benign-start-tested-twice", RET,
+      "            self.log(\"on the first segment: skipping first %d bytes\" % skip)\n            segment = segment[skip:]\n",
+      "            self.log(\"on the first segment: skipping first %d bytes\" % skip)\n"
+      "        if self._current_segment == self._start_segment:\n            segment = segment[skip:]\n", None),
+    M("tail-trim-skipped-for-first-segment", RET, "            if wanted != 0:\n",
+      "            if wanted != 0 and self._current_segment != self._start_segment:\n", "C10.11"),
+    M("head-trim-skipped-in-single-segment-read", RET,
+      "            self.log(\"on the first segment: skipping first %d bytes\" % skip)\n            segment = segment[skip:]\n",
+      "            self.log(\"on the first segment: skipping first %d bytes\" % skip)\n"
+      "            if self._start_segment != self._last_segment:\n                segment = segment[skip:]\n", "C10.11"),
+    M("blank-when-not-zero-length", RET, "        if self._read_length == 0:\n            self.log(\"on first+last segment, size=0",
+      "        if self._read_length != 0:\n            self.log(\"on first+last segment, size=0", "C10.11"),
+    M("trim-benign-ge-and-guarded-skip", RET,
+      "        if self._current_segment == self._start_segment:\n"
+      "            # Trim off the head, if offset != 0. This should also work if\n"
+      "            # start==last, because we trim the tail first.\n"
+      "            skip = self._offset % self._segment_size\n"
+      "            self.log(\"on the first segment: skipping first %d bytes\" % skip)\n"
+      "            segment = segment[skip:]\n",
+      "        if self._current_segment <= self._start_segment:\n"
+      "            skip = self._offset % self._segment_size\n"
+      "            if skip != 0:\n"
+      "                segment = segment[skip:]\n", None),
+    M("trim-benign-last-ge-and-truthy", RET,
+      "        if self._current_segment == self._last_segment:\n            # trim off the tail\n"
+      "            wanted = (self._offset + self._read_length) % self._segment_size\n            if wanted != 0:\n",
+      "        if self._current_segment >= self._last_segment:\n            # trim off the tail\n"
+      "            end_in_segment = (self._offset + self._read_length) % self._segment_size\n"
+      "            wanted = end_in_segment\n            if wanted:\n", None),
+    M("trim-benign-dead-zero-length-case-removed", RET,
+      "        if self._read_length == 0:\n            self.log(\"on first+last segment, size=0, using 0 bytes\")\n"
+      "            segment = b\"\"\n", "", None),
     # ---- vanished anchor
     M("vanish-validate-block", RET, "    async def _validate_block(self, results, segnum, reader, server, started):",
       "    async def _validate_blockX(self, results, segnum, reader, server, started):", "ANALYSIS-ERROR"),
